@@ -12,6 +12,7 @@ from typing import (
     Union,
 )
 
+import numpy as np
 import onnx_ir as ir
 
 import onnxscript
@@ -445,6 +446,9 @@ class Converter:
         ovar = self._generate_unique_name(suggested_name)
 
         try:
+            if isinstance(pyvalue, np.ndarray):
+                # Script-time constants are fixed now: do not share memory with the caller's array.
+                pyvalue = pyvalue.copy()
             tensor = ir.tensor(pyvalue, name=ovar)
         except Exception as exc:  # pylint: disable=broad-exception-caught
             self._fail(
@@ -581,6 +585,9 @@ class Converter:
                 self._fail(expr, f"Attribute '{attr_name}' is required.")
             return None
         attr_type = attr_meta.type if attr_meta else None
+        if isinstance(val, np.ndarray):
+            # Script-time constants are fixed now: do not share memory with the caller's array.
+            val = val.copy()
         if attr_type == ir.AttributeType.TENSOR:
             val = ir.tensor(val)
         attr = ir.convenience.convert_attribute(attr_name, val, attr_type)
